@@ -61,7 +61,7 @@ type tr2 struct {
 }
 
 var leanTypeOfKind = map[string]string{"ents": "List Entry", "omap": "List Entry", "int": "Int", "cids": "List Hash",
-	"set": "List Hash", "smap": "List (Hash × Hash)", "entry": "Entry", "hash": "Hash", "bool": "Bool", "bytes": "Bytes", "key": "Entry", "log": "Unit", "queue": "Q", "optentry": "Option Entry", "chan": "List Entry", "iteropts": "Unit", "appendopts": "Unit", "fetchopts": "Unit", "identity": "Unit"}
+	"set": "List Hash", "smap": "List (Hash × Hash)", "entry": "Entry", "hash": "Hash", "bool": "Bool", "bytes": "Bytes", "key": "Entry", "log": "Unit", "queue": "Q", "optentry": "Option Entry", "chan": "List Entry", "iteropts": "Unit", "appendopts": "Unit", "fetchopts": "Unit", "identity": "Unit", "logopts": "Unit"}
 
 func (t *tr2) fail(n ast.Node, why string) string {
 	t.errs = append(t.errs, fmt.Sprintf("%s: %s", why, src(t.fset, n)))
@@ -192,6 +192,12 @@ func (t *tr2) expr(e ast.Expr) (string, string) {
 	case *ast.BinaryExpr:
 		if x.Op == token.EQL || x.Op == token.NEQ {
 			if sel, ok := x.X.(*ast.SelectorExpr); ok && isNil(x.Y) {
+				if id, ok := sel.X.(*ast.Ident); ok && t.kinds[id.Name] == "logopts" && sel.Sel.Name == "Clock" {
+					if x.Op == token.EQL {
+						return "optClockTime.isNone", "bool"
+					}
+					return "optClockTime.isSome", "bool"
+				}
 				if id, ok := sel.X.(*ast.Ident); ok && t.kinds[id.Name] == "fetchopts" && sel.Sel.Name == "Length" {
 					if x.Op == token.EQL {
 						return "optLength.isNone", "bool"
@@ -261,6 +267,14 @@ func (t *tr2) expr(e ast.Expr) (string, string) {
 		if id, ok := x.X.(*ast.Ident); ok && id.Name == t.recv && t.recv != "" {
 			if k, ok := t.kinds[id.Name+"."+x.Sel.Name]; ok {
 				return leanName(id.Name + "." + x.Sel.Name), k
+			}
+		}
+		if id, ok := x.X.(*ast.Ident); ok && t.kinds[id.Name] == "logopts" {
+			switch x.Sel.Name {
+			case "Heads":
+				return "optHeads", "ents"
+			case "Entries":
+				return "optEntries", "omap"
 			}
 		}
 		if id, ok := x.X.(*ast.Ident); ok && t.kinds[id.Name] == "identity" && x.Sel.Name == "PublicKey" {
@@ -499,6 +513,9 @@ func (t *tr2) call(x *ast.CallExpr) (string, string) {
 		}
 		return t.fail(x, "bytes.Compare"), ""
 	}
+	if parts := strings.Split(s, "."); len(parts) == 3 && t.kinds[parts[0]] == "logopts" && parts[1] == "Clock" && parts[2] == "GetTime" && len(x.Args) == 0 {
+		return "(optClockTime.getD 0)", "int"
+	}
 	if parts := strings.Split(s, "."); len(parts) == 3 && t.kinds[parts[0]] == "iteropts" && (parts[1] == "GTE" || parts[1] == "GT") && len(x.Args) == 0 {
 		switch parts[2] {
 		case "Defined":
@@ -733,6 +750,10 @@ func assignedOuter(stmts []ast.Stmt) []string {
 			set[id.Name] = true
 		}
 		if sel, ok := e.(*ast.SelectorExpr); ok {
+			if id, ok := sel.X.(*ast.Ident); ok && id.Name == "options" && sel.Sel.Name == "Heads" {
+				set["optHeads"] = true
+				return
+			}
 			if id, ok := sel.X.(*ast.Ident); ok {
 				if sel.Sel.Name == "Clock" {
 					set[id.Name+".ClockID"] = true
@@ -1310,6 +1331,15 @@ func (t *tr2) assign(x *ast.AssignStmt, rest []ast.Stmt, fall string, inLoop boo
 		}
 		return t.fail(x, "map write")
 	}
+	// options.Heads = …: the caller's option value is a local of the translation
+	if sel, isSel := x.Lhs[0].(*ast.SelectorExpr); isSel && x.Tok == token.ASSIGN && sel.Sel.Name == "Heads" {
+		if id, ok := sel.X.(*ast.Ident); ok && t.kinds[id.Name] == "logopts" {
+			v, kv := t.expr(x.Rhs[0])
+			if kv == "ents" {
+				return "(let optHeads := " + v + "; " + cont() + ")"
+			}
+		}
+	}
 	// l.Identity = identity: which identity signs is not part of the translated state (the clock id is)
 	if sel, isSel := x.Lhs[0].(*ast.SelectorExpr); isSel && x.Tok == token.ASSIGN && src(t.fset, sel) == t.recv+".Identity" && t.recv != "" {
 		if id, ok := x.Rhs[0].(*ast.Ident); ok && t.kinds[id.Name] == "identity" {
@@ -1600,7 +1630,7 @@ func (t *tr2) liveVars() []string {
 	}
 	var vs []string
 	for v, k := range t.kinds {
-		if strings.Contains(v, ".") || isParam[leanName(v)] || leanTypeOfKind[k] == "" || k == "log" || k == "iteropts" || k == "appendopts" || k == "fetchopts" || k == "identity" || k == "ctx" || k == "key" {
+		if strings.Contains(v, ".") || isParam[leanName(v)] || leanTypeOfKind[k] == "" || k == "log" || k == "iteropts" || k == "appendopts" || k == "fetchopts" || k == "identity" || k == "logopts" || k == "ctx" || k == "key" {
 			continue
 		}
 		vs = append(vs, v)
@@ -2579,6 +2609,57 @@ func (t *tr2) setIdentityDecl(f *ast.File) string {
 	return "def setIdentity " + strings.Join(t.params, " ") + " : Bytes × Int :=\n  " + b + "\n"
 }
 
+// newLogDecl: what NewLog (log.go) computes from the entries, heads and clock of its options — the clock time, the
+// heads (given, or found), the key set of the Next index — leaving out the plumbing of the other options
+func (t *tr2) newLogDecl(f *ast.File) string {
+	fd := findFunc(f, "NewLog")
+	if fd == nil || fd.Body == nil {
+		return t.fail(&ast.BlockStmt{}, "NewLog not found")
+	}
+	t.prepare(fd)
+	t.kinds = map[string]string{"options": "logopts", "identity": "identity", "optHeads": "ents", "next": "set"}
+	t.subst = map[string]string{}
+	t.loops, t.helperDefs, t.aliases = nil, nil, nil
+	t.fn, t.recv, t.brk, t.noResult, t.emitter = "newLogCore", "", "", "", ""
+	t.monadic, t.joinN, t.hasFuel, t.usesFuel, t.partial = 0, 0, false, false, false
+	t.retType = "Int × List Entry × List Hash"
+	t.params = []string{"(optClockTime : Option Int)", "(optHeads : List Entry)", "(optEntries : List Entry)"}
+	t.pnames = []string{"optClockTime", "optHeads", "optEntries"}
+	var kept []ast.Stmt
+	n := len(fd.Body.List)
+	for _, st := range fd.Body.List[:n-1] {
+		txt := src(t.fset, st)
+		switch {
+		case strings.HasPrefix(txt, "if options.Entries == nil"):
+			// a nil entry map is the empty one
+		case txt == "next := entry.NewOrderedMap()":
+			// of the index only the key set exists (initialised below)
+		case strings.Contains(txt, "maxTime") || strings.Contains(txt, "options.Heads") || strings.HasPrefix(txt, "for _, key := range options.Entries.Keys()"):
+			kept = append(kept, st)
+		}
+	}
+	ret, ok := fd.Body.List[n-1].(*ast.ReturnStmt)
+	if !ok || len(ret.Results) != 2 {
+		return t.fail(fd, "NewLog does not end in its return")
+	}
+	fields := map[string]string{}
+	if u, ok := ret.Results[0].(*ast.UnaryExpr); ok {
+		if cl, ok := u.X.(*ast.CompositeLit); ok {
+			for _, el := range cl.Elts {
+				if kv, ok := el.(*ast.KeyValueExpr); ok {
+					fields[src(t.fset, kv.Key)] = src(t.fset, kv.Value)
+				}
+			}
+		}
+	}
+	if fields["Entries"] != "options.Entries.Copy()" || fields["heads"] != "entry.NewOrderedMapFromEntries(options.Heads)" || fields["Next"] != "next" ||
+		fields["Clock"] != "entry.NewLamportClock(identity.PublicKey, maxTime)" {
+		return t.fail(ret, "the fields of the returned log")
+	}
+	b := strings.Join(strings.Fields(t.block(kept, "(maxTime, (omFromList optHeads), next)", false)), " ")
+	return "def newLogCore (optClockTime : Option Int) (optHeads : List Entry) (optEntries : List Entry) : Int × List Entry × List Hash :=\n  (let next := ([] : List Hash); " + b + ")\n"
+}
+
 func findMethod(f *ast.File, name string) *ast.FuncDecl {
 	for _, d := range f.Decls {
 		if fd, ok := d.(*ast.FuncDecl); ok && fd.Name.Name == name && fd.Recv != nil {
@@ -2602,6 +2683,7 @@ func renderSlices(repo string) map[string]string {
 		{"Misc", []job{{"log.go", []string{"maxClockTimeForEntries", "#setIdentity"}}, {"entry/entry.go", []string{"uniqueCIDs"}}}},
 		{"Loaders", []job{{"entry/utils.go", []string{"Difference"}}, {"log_io.go", []string{"entryLastN", "entryLastNKeeping", "entrySliceRange", "#fromEntry", "#fromJSON"}}}},
 		{"Heads", []job{{"entry/utils.go", []string{"FindHeads"}}}},
+		{"NewLog", []job{{"log.go", []string{"#newLog"}}}},
 		{"Traverse", []job{{"log.go", []string{"traverse"}}}},
 		{"Join", []job{{"log.go", []string{"difference"}}}},
 		{"Fetcher", []job{{"entry/fetcher.go", []string{"updateClock", "addNextEntry", "#admission"}}}},
@@ -2615,6 +2697,9 @@ func renderSlices(repo string) map[string]string {
 		var b strings.Builder
 		if g.name == "Iterator" {
 			b.WriteString("import Generated.GenTraverse\n")
+		}
+		if g.name == "NewLog" {
+			b.WriteString("import Generated.GenHeads\nimport Generated.GenMisc\n")
 		}
 		if g.name == "Append" {
 			b.WriteString("import Generated.GenIterator\nimport Generated.GenMisc\n")
@@ -2641,6 +2726,10 @@ func renderSlices(repo string) map[string]string {
 				}
 				if n == "#setIdentity" {
 					fmt.Fprintf(&b, "/-- `SetIdentity` (%s): the new clock -/\n%s\n", j.file, t.setIdentityDecl(f))
+					continue
+				}
+				if n == "#newLog" {
+					fmt.Fprintf(&b, "/-- `NewLog` (%s): clock time, heads and index keys from the options -/\n%s\n", j.file, t.newLogDecl(f))
 					continue
 				}
 				if n == "#admission" {
